@@ -20,7 +20,8 @@ Arguments protection_gke_from_cache : simpl never.
 Arguments gke_is_public_key : simpl never.
 
 Definition lift (r : res bytes) : res (pv obj) := let* b := r in Ok (VB b).
-(* value and final cache of a public call, as the model returns them *)
+(* value and final cache of a public call, as the model returns them.  When the call raises both sides of a tie collapse to the
+   error: the cache after a FAILING call is tied separately, in Proofs/Flow_cache_prefix.v *)
 Definition lift2 (rc : res bytes * ccache) : res (pv obj * pv obj) := let* b := fst rc in Ok (VB b, VO (OCache (snd rc))).
 (* of PyAstMut.run_mut's (result, final values of the parameters): the result and the final value of parameter number i *)
 Definition value_and_param (i : nat) (r : res (pv obj * list (pv obj))) : res (pv obj * pv obj) :=
